@@ -562,6 +562,11 @@ func addTransceiverSDP(
 		WithPropertyAttribute(sdp.AttrKeyRTCPRsize)
 
 	codecs := transceiver.getCodecs()
+	if mediaSection.offeredPayloadTypes != nil && !transceiver.hasCodecPreferences() {
+		// Without codec preferences a transceiver uses everything negotiated for its kind, and
+		// that may stem from another media section: answer with what this section offered.
+		codecs = codecsWithPayloadTypes(codecs, mediaSection.offeredPayloadTypes)
+	}
 	for _, codec := range codecs {
 		name := strings.TrimPrefix(codec.MimeType, "audio/")
 		name = strings.TrimPrefix(name, "video/")
@@ -688,10 +693,37 @@ type mediaSection struct {
 	data            bool
 	sctpInit        []byte
 	matchExtensions map[string]int
-	rids            []*simulcastRid
+	// offeredPayloadTypes are the formats of the remote media section when this media section answers it.
+	offeredPayloadTypes map[PayloadType]bool
+	rids                []*simulcastRid
 	// rejected is the remote media section that is answered with a rejected
 	// media section because no transceiver can be associated with it.
 	rejected *sdp.MediaDescription
+}
+
+// payloadTypesFromMediaDescription returns the payload types a media section lists in its m= line.
+func payloadTypesFromMediaDescription(media *sdp.MediaDescription) map[PayloadType]bool {
+	payloadTypes := map[PayloadType]bool{}
+	for _, format := range media.MediaName.Formats {
+		if payloadType, err := strconv.ParseUint(format, 10, 8); err == nil {
+			payloadTypes[PayloadType(payloadType)] = true
+		}
+	}
+
+	return payloadTypes
+}
+
+// codecsWithPayloadTypes returns the codecs whose payload type is in payloadTypes,
+// without the RTX codecs that lose their primary codec that way.
+func codecsWithPayloadTypes(codecs []RTPCodecParameters, payloadTypes map[PayloadType]bool) []RTPCodecParameters {
+	filtered := make([]RTPCodecParameters, 0, len(codecs))
+	for _, codec := range codecs {
+		if payloadTypes[codec.PayloadType] {
+			filtered = append(filtered, codec)
+		}
+	}
+
+	return filterUnattachedRTX(filtered)
 }
 
 func bundleMatchFromRemote(matchBundleGroup *string) func(mid string) bool {
